@@ -5,6 +5,7 @@ use std::io::Write;
 mod c01;
 pub mod c07;
 pub mod c04;
+pub mod c05;
 mod c09;
 pub mod c10;
 
@@ -16,6 +17,7 @@ pub fn generate(suite: &str, tier: &str, seed: u64) -> Vec<String> {
         "c07" => c07::generate(&mut rng, thorough),
         "c09" => c09::generate_c09(&mut rng, thorough),
         "c04" => c04::generate(&mut rng, thorough),
+        "c05" => c05::generate(&mut rng, thorough),
         "c06" => c09::generate_c06(&mut rng, thorough),
         "c10" => c10::generate(&mut rng, thorough),
         _ => panic!("unknown suite {suite}"),
@@ -24,6 +26,9 @@ pub fn generate(suite: &str, tier: &str, seed: u64) -> Vec<String> {
 
 pub fn eval_more(t: &[&str]) -> String {
     if let Some(s) = c01::eval(t) {
+        return s;
+    }
+    if let Some(s) = c05::eval(t) {
         return s;
     }
     if let Some(s) = c04::eval(t) {
